@@ -386,6 +386,14 @@ func lTriples(ts [][3]string) lList {
 	return out
 }
 
+func lQuads(qs [][4]string) lList {
+	out := make(lList, len(qs))
+	for i, q := range qs {
+		out[i] = lTup{lStr(q[0]), lStr(q[1]), lStr(q[2]), lStr(q[3])}
+	}
+	return out
+}
+
 type keyedToks struct {
 	key  string
 	toks []string
